@@ -121,31 +121,67 @@ pub fn a_txt(v: &Value) -> String {
         _ => panic!("harness: text expected, got {}", v),
     }
 }
-/// f64 argument: [cls, sg, k, p, q]
-///   cls 0: exactly sg * (k + p/q)  (q a power of two, or p = 0)
-///   cls 1: the double nearest to sg * (k + p/q) (decimal fraction, inexact)
-///   cls 2: NaN   3: +inf   4: -inf   5: huge finite sg*1e300   6: tiny sg*1e-300
+/// f64 argument, exactly decoded: [cls, sg, mhi, mlo, e]
+///   cls 0: finite, value sg * (mhi * 2^27 + mlo) * 2^e   (mantissa < 2^53)
+///   cls 2: NaN   3: +inf   4: -inf
 pub fn a_f64(v: &Value) -> f64 {
     let a = v.as_array().unwrap_or_else(|| panic!("harness: f64 spec expected, got {}", v));
-    let (cls, sg, k, p, q) = (ai(&a[0]), ai(&a[1]), ai(&a[2]), ai(&a[3]), ai(&a[4]));
-    let sgf = if sg < 0 { -1.0 } else { 1.0 };
+    let (cls, sg, mhi, mlo, e) = (ai(&a[0]), ai(&a[1]), ai(&a[2]), ai(&a[3]), ai(&a[4]));
     match cls {
-        0 => sgf * (k as f64 + p as f64 / q as f64),
-        1 => {
-            // nearest double to the decimal: go through text so that the
-            // conversion is correctly rounded
-            let num = k as i128 * q as i128 + p as i128;
-            let digits = (q as f64).log10().round() as usize;
-            let s = format!("{}{}e-{}", if sg < 0 { "-" } else { "" }, num, digits);
-            s.parse::<f64>().unwrap()
+        0 => {
+            let mant = ((mhi as u64) << 27) | mlo as u64;
+            let mut x = mant as f64;
+            // scale by 2^e in steps that stay exact
+            let mut k = e;
+            while k > 0 {
+                let st = k.min(500);
+                x *= 2f64.powi(st as i32);
+                k -= st;
+            }
+            while k < 0 {
+                let st = (-k).min(500);
+                x /= 2f64.powi(st as i32);
+                k += st;
+            }
+            let x = if sg < 0 { -x } else { x };
+            if f64_spec(x) != *v && mant != 0 {
+                // the fields were not a canonical decoding; accept if the value round-trips numerically
+                let back = f64_spec(x);
+                let b = back.as_array().unwrap();
+                let m2 = ((ai(&b[2]) as u64) << 27) | ai(&b[3]) as u64;
+                let e2 = ai(&b[4]);
+                // mant * 2^e == m2 * 2^e2 ?
+                let (ma, ea, mb, eb) = (mant as u128, e, m2 as u128, e2);
+                let okk = if ea >= eb { ea - eb < 64 && (ma << (ea - eb)) == mb } else { eb - ea < 64 && (mb << (eb - ea)) == ma };
+                if !okk {
+                    panic!("harness: f64 spec {} is not exactly representable", v);
+                }
+            }
+            x
         }
         2 => f64::NAN,
         3 => f64::INFINITY,
         4 => f64::NEG_INFINITY,
-        5 => sgf * 1e300,
-        6 => sgf * 1e-300,
         _ => panic!("harness: bad f64 class {}", v),
     }
+}
+/// exact decoding of a double into the spec's form
+pub fn f64_spec(x: f64) -> Value {
+    if x.is_nan() {
+        return json!([2, 1, 0, 0, 0]);
+    }
+    if x.is_infinite() {
+        return json!([if x > 0.0 { 3 } else { 4 }, if x > 0.0 { 1 } else { -1 }, 0, 0, 0]);
+    }
+    let bits = x.to_bits();
+    let sg = if bits >> 63 == 1 { -1 } else { 1 };
+    let ex = ((bits >> 52) & 0x7ff) as i64;
+    let frac = bits & ((1u64 << 52) - 1);
+    let (mant, e) = if ex == 0 { (frac, -1074) } else { (frac | (1u64 << 52), ex - 1075) };
+    if mant == 0 {
+        return json!([0, sg, 0, 0, 0]);
+    }
+    json!([0, sg, mant >> 27, mant & ((1u64 << 27) - 1), e])
 }
 
 // ---- encoding of results ---------------------------------------------------
@@ -248,12 +284,13 @@ mod tests {
         assert_eq!(split_us(-62135596800000000), (-719162, 0, 0));
     }
     #[test]
-    fn f64_spec() {
-        assert_eq!(a_f64(&json!([0, 1, 2, 1, 2])), 2.5);
-        assert_eq!(a_f64(&json!([0, -1, 0, 3, 8])), -0.375);
-        assert_eq!(a_f64(&json!([1, 1, 0, 1, 10])), 0.1);
-        assert_eq!(a_f64(&json!([1, -1, 12, 345, 1000])), -12.345);
-        assert!(a_f64(&json!([2, 1, 0, 0, 1])).is_nan());
-        assert!(a_f64(&json!([0, -1, 0, 0, 1])).is_sign_negative());
+    fn f64_spec_roundtrip() {
+        for x in [2.5f64, -0.375, 0.1, -12.345, 1e300, -1e-300, 5e-324, f64::MAX, f64::MIN_POSITIVE, 0.0, -0.0, 86400e6, 1.0 / 3.0] {
+            let y = a_f64(&f64_spec(x));
+            assert_eq!(x.to_bits(), y.to_bits(), "{}", x);
+        }
+        assert_eq!(a_f64(&json!([0, 1, 0, 5, -1])), 2.5);
+        assert!(a_f64(&json!([2, 1, 0, 0, 0])).is_nan());
+        assert!(a_f64(&json!([0, -1, 0, 0, 0])).is_sign_negative());
     }
 }
